@@ -124,8 +124,12 @@ func parseECPrivateKey(namedCurveOID *asn1.ObjectIdentifier, der []byte) (key *e
 
 	k := new(big.Int).SetBytes(privKey.PrivateKey)
 	curveOrder := curve.Params().N
-	if k.Cmp(curveOrder) >= 0 {
+	if k.Cmp(curveOrder) >= 0 || k.Sign() == 0 {
 		return nil, errors.New("x509: invalid elliptic curve private key value")
+	}
+	if curve == sm2.P256() && k.Cmp(new(big.Int).Sub(curveOrder, big.NewInt(1))) == 0 {
+		// GB/T 32918.1: an SM2 private key is in [1, n-2]
+		return nil, errors.New("x509: invalid SM2 private key value")
 	}
 	priv := new(ecdsa.PrivateKey)
 	priv.Curve = curve
